@@ -543,6 +543,9 @@ def r10_uniqueness(ctx: Ctx) -> None:
                             ok = True
                         if isinstance(n, ast.Call) and ast.unparse(n.func) == "len" and "set(" in ast.unparse(n):
                             ok = True
+                        if isinstance(n, ast.Call) and ast.unparse(n.func) == "any" and n.args and isinstance(n.args[0], ast.GeneratorExp) and any(isinstance(x, ast.Compare) and isinstance(x.ops[0], ast.Eq) for x in ast.walk(n.args[0].elt)):
+                            # the same membership test spelled as any(other == new for other in collected)
+                            ok = True
         ctx.check(ok, meth, f"parser:Parser.{meth}", "duplicate names accepted",
                   f"{what}, but {meth} accepts duplicate names: CPython rejects the generated module with builtins.SyntaxError", fi.loc(),
                   detail={"method": meth, "obligation": what})
@@ -606,8 +609,20 @@ def r13_emitted_literals(ctx: Ctx) -> None:
                 elif isinstance(v, ast.FormattedValue) and quote is not None:
                     n_sites += 1
                     e = v.value
-                    base = e.value if isinstance(e, ast.Subscript) else e
-                    ident = (isinstance(base, ast.Attribute) and base.attr == "name" and isinstance(base.value, ast.Name) and base.value.id != "self") or (isinstance(base, ast.Name) and base.id in loopvars)
+
+                    def _ident(x: ast.AST, depth: int = 0) -> bool:
+                        base = x.value if isinstance(x, ast.Subscript) else x
+                        if isinstance(base, ast.Attribute) and base.attr == "name" and isinstance(base.value, ast.Name) and base.value.id != "self":
+                            return True
+                        if isinstance(base, ast.Name):
+                            if base.id in loopvars:
+                                return True
+                            # a local that only names such a value (`kind = dependency[:-1]`)
+                            vals_ = [a_.value for a_ in ast.walk(fn) if isinstance(a_, ast.Assign) and any(isinstance(t_, ast.Name) and t_.id == base.id for t_ in a_.targets)] if fn is not None else []
+                            return bool(vals_) and depth < 3 and all(_ident(v_, depth + 1) for v_ in vals_)
+                        return False
+
+                    ident = _ident(e)
                     q = astq.enclosing_qual(c)
                     ctx.check(ident, f"{mod}:{q}:{ast.unparse(e)}", f"{mod}:{q}", f"`{ast.unparse(e)}` interpolated inside an emitted {quote}-quoted literal",
                               f"{q} writes `{ast.unparse(e)}` inside a {quote}...{quote} literal of the generated module; unless that text is an identifier, a quote or backslash in it (a template name such as a\"b, a file name, user text) ends the literal early and compile() raises builtins.SyntaxError - emit the whole message with !r instead",
@@ -640,8 +655,11 @@ def r14_dependency_finder(ctx: Ctx) -> None:
                   f"{name} does not call self.generic_visit({par}) unconditionally: a filter or test that only occurs inside the operand / arguments of this node (`{{% if items|length is gt 2 %}}`, `x is divisibleby(y|int)`) gets no id in pull_dependencies and `_filter_test_common` raises KeyError while the template is compiled",
                   f"src/jinja2/compiler.py:{fn.lineno}")
         if name in want:
-            adds = [c for c in astq.calls(fn) if astq.callee(c) == f"self.{want[name]}.add" and [ast.unparse(a) for a in c.args] == [f"{par}.name"]]
-            ctx.check(len(adds) == 1 and not astq.guard_atoms(fn, adds[0]), f"finder:{name}:records", f"compiler:DependencyFinderVisitor.{name}", "name not recorded",
+            from ..normalize import norm as _norm
+
+            nf = _norm(fn)  # a local naming node.name is inlined
+            adds = [c for c in astq.calls(nf) if astq.callee(c) == f"self.{want[name]}.add" and [ast.unparse(a) for a in c.args] == [f"{par}.name"]]
+            ctx.check(len(adds) == 1 and not astq.guard_atoms(nf, adds[0]), f"finder:{name}:records", f"compiler:DependencyFinderVisitor.{name}", "name not recorded",
                       f"{name} must add {par}.name to self.{want[name]} unconditionally", f"src/jinja2/compiler.py:{fn.lineno}")
     ftc = repo.func("compiler:CodeGenerator._filter_test_common")
     s = ast.unparse(ftc.node)
